@@ -4,7 +4,7 @@ equals the hand model Model/Tl.lean, for ALL tables, type strings, values and de
 
 Generation-independent part: the built-ins of PyTl.lean against the primitives of the model (`intToBytes?`, `repeatI`, `toBytesLE?`,
 the framing computed step by step = `frame?`, the element loop of a vector = `serMany`, the field loop = `serBody`).
-Generation-dependent part: `serialize_field_*`, `serialize_eq`, `src_serialize_eq_model`.
+Generation-dependent part: `serialize_field_*`, `serialize_eq`, `src_serialize_rel`, `src_serialize_eq_model`, `block_*_eq` (block.py).
 -/
 import TonVerif.Generated.TlEngine
 import TonVerif.Model.Tl
@@ -288,5 +288,35 @@ theorem src_serialize_rel (T : Table) (fuel : Nat) : SerRel (serializeF T fuel) 
 theorem src_serialize_eq_model (T : Table) (fuel : Nat) (c : Ctor) (ty : Option Nat) (fs : Fields) (boxed : Bool) :
     serializeF T fuel (some c) (.obj ty fs) boxed = serObj T fuel c fs boxed := by
   rw [(src_serialize_rel T fuel).2]; simp [objFields?]
+
+/-! ### block.py -/
+
+theorem intToBytes_signed_be (w : Nat) (v : Int) : Py.Tl.intToBytes? true false w v = intToBE? w v := by
+  unfold Py.Tl.intToBytes? intToBE? intToLE? intLE
+  by_cases h : -(2 ^ (8 * w - 1) : Int) ≤ v ∧ v < (2 ^ (8 * w - 1) : Int) <;> simp [h]
+
+theorem intOfBytes_signed_be (bs : Bytes) : Py.Tl.intOfBytes true false bs = intOfBE bs := by
+  unfold Py.Tl.intOfBytes intOfBE intOfLE
+  simp
+
+theorem block_init_eq (w s q : Int) (r f : Bytes) : Block.init w s q r f = some ⟨w, s, q, r, f⟩ := by
+  simp [Block.init]
+
+theorem block_to_bytes_eq (b : BlockIdExt) :
+    Block.to_bytes b.fileHash b.rootHash b.seqno b.shard b.workchain = b.toBytes := by
+  simp [Block.to_bytes, BlockIdExt.toBytes, intToBytes_signed_be]
+
+theorem block_from_bytes_eq (d : Bytes) : Block.from_bytes d = some (BlockIdExt.fromBytes d) := by
+  simp [Block.from_bytes, block_init_eq, BlockIdExt.fromBytes, intOfBytes_signed_be, Py.slice, List.take_drop]
+
+theorem block_eq_eq (a b : BlockIdExt) :
+    Block.eq b a.fileHash a.rootHash a.seqno a.shard a.workchain = some (a.pyEq b) := by
+  simp only [Block.eq, BlockIdExt.pyEq]
+  split <;> rename_i h
+  · simp; intro h1 h2 h3 h4 h5; simp [h1, h2, h3, h4, h5] at h
+  · simp; simp at h; obtain ⟨h1, h2, h3, h4, h5⟩ := h; exact ⟨⟨⟨⟨h1, h2⟩, h3⟩, h4⟩, h5⟩
+
+theorem block_hash_eq (H : Int × Int × Int × Bytes × Bytes → Int) (a : BlockIdExt) :
+    Block.hash H a.fileHash a.rootHash a.seqno a.shard a.workchain = some (a.pyHash H) := rfl
 
 end TonVerif.Proofs.SrcTlEngine
